@@ -613,6 +613,8 @@ func fsPlan(id string) func(cx *CheckCtx) int {
 		cx.Extra["fault_points"] = stats.FaultPoints
 		cx.Extra["fault_positions_unreached"] = stats.Unreached
 		cx.Extra["faults_landed_on_another_call"] = stats.Moved
+		cx.Extra["fault_runs_repeated_for_unreached_positions"] = stats.Retried
+		cx.Extra["fault_positions_reached_by_path_restricted_tracing"] = stats.ByPath
 		cx.Extra["commands_recorded"] = stats.Commands
 		cx.Extra["positions_by_command"] = stats.ByCmd
 		cx.Extra["real_kill_crosschecked"] = stats.KillChecked
@@ -644,6 +646,8 @@ func mergeStats(a, b *fsStats) {
 	a.Drift += b.Drift
 	a.Retries += b.Retries
 	a.Moved += b.Moved
+	a.Retried += b.Retried
+	a.ByPath += b.ByPath
 	a.Protocol = append(a.Protocol, b.Protocol...)
 	for k, v := range b.ByCmd {
 		a.ByCmd[k] += v
